@@ -376,7 +376,11 @@ def main():
         "assumptions": prop.get("assumptions", []), "wall_s": round(wall, 2),
         "violations": len(violations),
     }
-    json.dump(evidence, open(os.path.join(HERE, "evidence", f"{pid}.json"), "w"), indent=1, default=str)
+    # evidence/<id>.json describes a run on the tree under /repo; runs on scratch trees (VERIF_REPO) keep theirs apart
+    ev_dir = os.path.join(HERE, "evidence") if os.path.realpath(REPO) == "/repo" else os.path.join(HERE, "scratch", "evidence")
+    os.makedirs(ev_dir, exist_ok=True)
+    evidence["tree"] = os.path.realpath(REPO)
+    json.dump(evidence, open(os.path.join(ev_dir, f"{pid}.json"), "w"), indent=1, default=str)
 
     # ---- verdict -------------------------------------------------------------------------------------------
     seen_kf = {}
